@@ -66,7 +66,7 @@ CHECKS = {
         engine="vk-E1-vcgen",
     ),
     "C16": dict(
-        text="forward of BitErrorRate / BlockErrorRate (+SER/FER aliases) and the StandardMetrics helpers == exact counts for ALL binary tensor pairs of the enumerated shapes/block sizes (symbolic bits; hence symmetric, zero iff equal, BER <= BLER <= min(1, B.BER)); non-divisor block sizes rejected. Streaming form as a data structure with abstract view (T,E): update proved for a SYMBOLIC prior state and symbolic batch ((T,E) -> (T+n, E+d), frame), compute and reset likewise; with the fold lemma this gives partition/order independence for histories of any length. Exhaustive short histories are a bounded cross-check. Helper BLER also on 2-D inputs. Closed, exhaustive: accumulated == one-shot also for soft inputs exactly on the decision threshold.",
+        text="forward of BitErrorRate / BlockErrorRate (+SER/FER aliases) and the StandardMetrics helpers == exact counts for ALL binary tensor pairs of the enumerated shapes/block sizes (symbolic bits; hence symmetric, zero iff equal, BER <= BLER <= min(1, B.BER)); non-divisor block sizes rejected. Streaming form as a data structure with abstract view (T,E): update proved for a SYMBOLIC prior state and symbolic batch ((T,E) -> (T+n, E+d), frame), compute and reset likewise; with the fold lemma this gives partition/order independence for histories of any length. Exhaustive short histories are a bounded cross-check. Helper BLER also on 2-D inputs. Closed, exhaustive: accumulated == one-shot also for soft inputs exactly on the decision threshold. Closed: non-contiguous views equal contiguous copies; accumulated counts exact for every (N, k), N <= 130.",
         note="Trusted: vk engine, lemma L-fold. Floats as reals (counter rounding above 2^24 not modelled).",
         design="7/C16",
         technique=E2 + "; data-structure contract with symbolic prior state + induction lemma",
@@ -84,7 +84,7 @@ CHECKS = {
         technique=E2 + "; RNG replaced by its contract; coefficient algebra + moment lemma",
     ),
     "C13": dict(
-        text="Real FlatFadingChannel: with supplied csi/noise y == h.x + n exactly and shape preserved (1-D, 2-D, 4-D); block expansion: coefficient of x[b,i] is the symbol of block i // T for all L in 1..7 x T in 1..L+1; distinct blocks/batch items use disjoint RNG symbols; second moments by the moment calculus: Rayleigh E|h|^2 = 1, Rician |LOS|^2 = K/(K+1), scattered 1/(K+1), ratio K (symbolic K >= 0); noise stage calibrated relative to mean|h.x|^2 - discharged for all inputs and draws per shape. Rayleigh/Rician generators also with a stray shadowing sigma (documented as unused).",
+        text="Real FlatFadingChannel: with supplied csi/noise y == h.x + n exactly and shape preserved (1-D, 2-D, 4-D); block expansion: coefficient of x[b,i] is the symbol of block i // T for all L in 1..7 x T in 1..L+1; distinct blocks/batch items use disjoint RNG symbols; second moments by the moment calculus: Rayleigh E|h|^2 = 1, Rician |LOS|^2 = K/(K+1), scattered 1/(K+1), ratio K (symbolic K >= 0); noise stage calibrated relative to mean|h.x|^2 - discharged for all inputs and draws per shape. Rayleigh/Rician generators also with a stray shadowing sigma (documented as unused). Closed same-seed relation: the SNR reference power is that of the whole faded signal for 6000- and 8192-sample items.",
         note="Assumed: RNG laws; log-normal fading: structure only. Shapes are small and enumerated.",
         design="7/C13",
         technique=E2 + "; RNG replaced by its contract; coefficient algebra + moment lemma",
@@ -121,7 +121,7 @@ CHECKS = {
         technique=E2,
     ),
     "C08": dict(
-        text="Total/average/per-antenna power constraints: for ALL real/complex inputs of the enumerated shapes (<= 6 elements per item) each item's output equals s.x_item with s > 0 the execution's own scale term, s^2 = T/(p + 1e-8), power(out) <= T(1+1e-6), >= 0.999 T for p >= 1e-5, per-item dependency, idempotence and rescaling invariance (normal-form identities + a small z3 lemma), both the batch-of-1 and batched code paths and the flat-signal branch; peak amplitude: bound, identity inside the limit, nearest-bound clipping (complex input is rejected); composite / apply_constraint_chain / combine_constraints == left fold (0..4 parts; unbounded fold-loop VCs are C17.fold_unbounded); factory OFDM/MIMO composites satisfy all limits simultaneously. PAPRConstraint (15 data-dependent iterations): bounded stand-in over the property's signal families. Composite: parts added (also to a nested composite) AFTER a first call.",
+        text="Total/average/per-antenna power constraints: for ALL real/complex inputs of the enumerated shapes (<= 6 elements per item) each item's output equals s.x_item with s > 0 the execution's own scale term, s^2 = T/(p + 1e-8), power(out) <= T(1+1e-6), >= 0.999 T for p >= 1e-5, per-item dependency, idempotence and rescaling invariance (normal-form identities + a small z3 lemma), both the batch-of-1 and batched code paths and the flat-signal branch; peak amplitude: bound, identity inside the limit, nearest-bound clipping (complex input is rejected); composite / apply_constraint_chain / combine_constraints == left fold (0..4 parts; unbounded fold-loop VCs are C17.fold_unbounded); factory OFDM/MIMO composites satisfy all limits simultaneously. PAPRConstraint (15 data-dependent iterations): bounded stand-in over the property's signal families. Composite: parts added (also to a nested composite) AFTER a first call. Closed: non-contiguous views (permuted, transposed, strided) equal contiguous copies for every constraint family.",
         note="Trusted: vk engine; floats as reals with the stated 1e-6 / 1e-3 tolerances. Shapes small and enumerated. PAPR: bounded only, never counted as proved.",
         design="7/C08",
         technique=E2 + "; bounded native stand-in for the iterative PAPR constraint",
